@@ -78,6 +78,9 @@ pub trait Kind: Function + Sized + 'static {
     fn set_var_order<'id>(m: &mut Self::Manager<'id>, req: &[u32]);
     /// set the split depth of the worker pool (None = automatic)
     fn set_split_depth<'id>(m: &Self::Manager<'id>, depth: Option<u32>);
+    /// drop the handle through `Manager::try_remove_node` (legal at any time: "may fail if the manager
+    /// is not prepared"); returns whether the node was removed, None for terminals
+    fn try_remove(mref: &Self::ManagerRef, f: Self) -> Option<bool>;
     /// DDDMP export of `roots` into a buffer (ASCII or binary-if-supported); returns the size
     fn dddmp_export(mref: &Self::ManagerRef, roots: &[&Self], ascii: bool) -> Result<usize, String>;
     fn order<'id>(m: &Self::Manager<'id>) -> (Vec<u32>, Vec<u32>) {
@@ -111,6 +114,23 @@ macro_rules! impl_kind {
             fn set_split_depth<'id>(m: &Self::Manager<'id>, depth: Option<u32>) {
                 use oxidd::{HasWorkers, WorkerPool};
                 m.workers().set_split_depth(depth)
+            }
+            fn try_remove(mref: &Self::ManagerRef, f: Self) -> Option<bool> {
+                use oxidd::ManagerRef;
+                mref.with_manager_shared(|m| {
+                    let e = f.into_edge(m);
+                    let lvl = match m.get_node(&e) {
+                        Node::Inner(n) => Some(n.level()),
+                        Node::Terminal(_) => None,
+                    };
+                    match lvl {
+                        Some(l) => Some(m.try_remove_node(e, l)),
+                        None => {
+                            m.drop_edge(e);
+                            None
+                        }
+                    }
+                })
             }
             fn dddmp_export(mref: &Self::ManagerRef, roots: &[&Self], ascii: bool) -> Result<usize, String> {
                 use oxidd::ManagerRef;
